@@ -852,7 +852,9 @@ def gen_sheet(rng, fi, si, name, elements, xlsx, offsets=True, lead_fixed=None):
         elif kind == "include":
             # a line that is not a text cell (a number typed into a workbook) is the specification str(cell)
             truth.append({"ty": "DIRECTIVE", "row": len(rows), "name": "include",
-                          "lines": [s if isinstance(s, str) else str(s) for s, _ in el[1]],
+                          "lines": [s if isinstance(s, str) else
+                                    (str(int(s)) if isinstance(s, float) and s.is_integer() else str(s))
+                                    for s, _ in el[1]],      # a workbook hands 2024.0 back as the int 2024
                           "targets": [t for _, t in el[1]]})
             rows.append(cells("***include", "") if (not xlsx and rng.random() < 0.5) else cells("***include"))
             for s, _ in el[1]:
@@ -1003,7 +1005,15 @@ def build_case(rng, n_files, edges, *, folders, kinds, root_folder, roots_mode, 
         for gi, g in enumerate(groups):
             lines = []
             for t in g:
-                if t[0] == "BAD":
+                if t[0] == "NUMDIR":
+                    # a number cell that names an existing all-digit folder next to this workbook (a date stamp,
+                    # epoch seconds): the specification is str(cell)
+                    if xlsx and "/" not in f["path"]:
+                        v = int(t[1])
+                        lines.append((float(v) if (v < 10000 and rng.random() < 0.5) else v, ("D", t[1])))
+                    else:
+                        lines.append(spec_for(rng, case, i, ("D", t[1])))
+                elif t[0] == "BAD":
                     lines.append(bad_spec(rng, case, i, t[1] if len(t) > 1 else None))
                 else:
                     lines.append(spec_for(rng, case, i, t))
@@ -1161,6 +1171,13 @@ def random_case(crng, xlsx_share=0.2, force_mem=False):
     es = {(i, j) for i in range(n) for j in range(n) if crng.random() < dens}
     folders = crng.choice(FOLDER_LAYOUTS)
     extra = []
+    if crng.random() < 0.18:
+        # all-digit folder names, included from the root workbook by NUMBER cells
+        folders = crng.choice([["", "20240115"], ["", "1700000000"], ["", "2024", "20240115"], ["", "12345678"],
+                               ["", "999999", "1000000"], ["", "4102444800"]])
+        kinds[0] = "xlsx"
+        for rel in folders[1:]:
+            extra.append((0, ("NUMDIR", rel)))
     for i in range(n):
         if crng.random() < 0.15:
             extra.append((i, ("D", crng.choice(folders))))
@@ -1222,6 +1239,9 @@ def classify(case, impl, out):
     if case.get("sibling") and any("{RN}_old" in ln for f in case["files"] for sh in f["sheets"] for b in sh["truth"]
                                    if b["ty"] == "DIRECTIVE" for ln in b["lines"]):
         out.count("cases_with_an_include_into_a_sibling_whose_name_extends_the_root")
+    if any(isinstance(r[0], (int, float)) and not isinstance(r[0], bool) and abs(r[0]) >= 1000000
+           for f in case["files"] if f["kind"] == "xlsx" for sh in f["sheets"] for r in sh["rows"] if r):
+        out.count("cases_with_a_7_to_10_digit_number_cell_as_include_line")
     if any(f.get("charts") for f in case["files"]):
         out.count("cases_with_chart_sheets_in_a_workbook")
     if any(b.get("bad") for f in case["files"] for sh in f["sheets"] for b in sh["truth"]):
